@@ -22,6 +22,13 @@ PROPS = {
         ],
         "assumptions": ["the tar reader yields exactly the declared number of bytes for an entry (archive/tar's contract)", "TOCTOU races on the destination are outside the model"],
     },
+    "C19": {
+        "corr": [("creds", {"quick": 600, "thorough": 6000})],
+        "trusted_base": [
+            "modelled, not verified: net/url parsing (scheme and host:port of every URL are handed to the model), net/http incl. its redirect header policy and proxy handling (all requests are captured by a local proxy via HTTP_PROXY; https is exercised only for the scheme-mismatch decision), TLS options, OCI references",
+        ],
+        "assumptions": ["a request counts as carrying the repository's credentials when its Authorization header is exactly Basic user:secret"],
+    },
     "C18": {
         "corr": [("index", {"quick": 1500, "thorough": 30000})],
         "trusted_base": [
